@@ -560,3 +560,7 @@ def replay(path):
         print("VIOLATION property=%s replay=%s" % (PROP, path))
         print("  sig=%s :: %s" % (v["sig"], v["msg"][:300]))
     return 1 if res.violations else 0
+
+
+# (what later rounds of seeded changes added to the workload; part of the evidence's description of the check)
+RULE += "; " + 'every sixth query repeated with Depth 0, without Depth (no member may be reported) and with Depth infinity; recurring events with an overridden instance; collations and negation inside param-filters'
